@@ -388,8 +388,13 @@ def gen_attr(rng, shape, allow_self, helper_ok, derive_suffix):
     nph = wchoice(rng, [0, 1, 2, 3, 4, 5, 6], [1, 9, 8, 6, 4, 2, 1])
     if shape.kind == "unit" and nph > 2:
         nph = 2
+    # "single": the whole literal is one placeholder with at most one modifier - the border of the
+    # documented transparent delegation (`{_0:o}` delegates, `{_0:^o}` does not)
+    single = rng.random() < 0.22
+    if single:
+        nph = 1
     for _ in range(nph):
-        at.pieces.append(("t", rng.choice(TEXTS) if rng.random() < 0.75 else ""))
+        at.pieces.append(("t", rng.choice(TEXTS) if rng.random() < 0.75 and not single else ""))
         ph = Ph()
         ph.colon = False
         # ---- what the placeholder prints
@@ -426,6 +431,8 @@ def gen_attr(rng, shape, allow_self, helper_ok, derive_suffix):
             nxt += 1
         elif r < 0.8 and (at.pos or nargs < 5):
             i = rng.randrange(0, min(len(at.pos) + (2 if nargs < 4 else 1 if nargs < 5 else 0), 5)) if nargs < 5 else rng.randrange(len(at.pos))
+            if single and rng.random() < 0.85:
+                i = 0
             a = pos_at(i)
             a.used = True
             ph.arg = str(i)
@@ -465,7 +472,26 @@ def gen_attr(rng, shape, allow_self, helper_ok, derive_suffix):
             ph.ty = ""
         if star:
             ph.prec = ".*"
-        if rng.random() < 0.45:
+        if single:
+            m = rng.choice(["", "", "", "", "", "fill", "sign", "alt", "zero", "width", "widthc", "prec", "precc"])
+            if m == "fill":
+                ph.fill = rng.choice(["<", "^", ">", "*<", "é^"])
+            elif m == "sign":
+                ph.sign = rng.choice("+-")
+            elif m == "alt":
+                ph.alt = "#"
+            elif m == "zero":
+                ph.zero = "0"
+            elif m == "width":
+                ph.width = str(rng.choice([1, 3, 8, 12]))
+            elif m == "widthc":
+                ph.width = count_ref()
+            elif m == "prec" and not star:
+                ph.prec = "." + str(rng.choice([0, 1, 3]))
+            elif m == "precc" and not star:
+                c = count_ref()
+                ph.prec = "." + c if c else ""
+        elif rng.random() < 0.45:
             if rng.random() < 0.35:
                 ph.fill = rng.choice(["<", "^", ">", "*<", "é^", "0>", "#>", " <", "🦀^", ">>", "->", "+^", ".<", "x>", "1^", "$>", ":<"])
             if rng.random() < 0.2:
@@ -490,7 +516,7 @@ def gen_attr(rng, shape, allow_self, helper_ok, derive_suffix):
             ph.ws = rng.choice([" ", " ", "  ", "\t"])
         ph.colon = bool(ph.spec()) or rng.random() < 0.05
         at.pieces.append(("p", ph))
-    at.pieces.append(("t", rng.choice(TEXTS) if rng.random() < 0.6 else ""))
+    at.pieces.append(("t", rng.choice(TEXTS) if rng.random() < 0.6 and not single else ""))
     if nph == 0 and not at.value():
         at.pieces.append(("t", rng.choice(["text", "é", "unit!", "{{}}"])))
     # every argument passed must be used (format_args! rejects the literal otherwise)
